@@ -57,6 +57,26 @@ def exhaustive_cases(maxlen):
                 yield {"max": mx, "win": win, "t0": 5, "hist": [list(x) for x in h]}
 
 
+def harvested_cases(rng):
+    """histories aimed at the integer literals that occur in budget.py (none beyond 0 and 1 on the pinned tree): a literal
+    introduced by a change is tried as cost, max_retries, window and time step"""
+    import pyir_translate
+    try:
+        ks = pyir_translate.harvest_constants(os.path.join(common.REPO, "src", "redress", "budget.py"))
+    except (OSError, SyntaxError):
+        return []
+    out = []
+    for k in ks:
+        if not (1 < abs(k) <= 20000):
+            continue
+        for c in sorted({k - 1, k, k + 1}):
+            for mx in sorted({1, max(0, k - 1), max(0, k), k + 1, 2 * abs(k)}):
+                for win in sorted({3, max(1, k), max(1, k + 1)}):
+                    hist = [[0, "C", c], [0, "R", 0], [rng.choice([0, 1, max(0, k)]), "C", 1], [win - 1, "C", c], [1, "R", 0], [0, "C", c]]
+                    out.append({"max": mx, "win": win, "t0": rng.choice([0, 7, abs(k)]), "hist": hist})
+    return out
+
+
 def to_gallina(case, obs):
     def op(x):
         dt, o, cost = x
@@ -153,10 +173,23 @@ def run(chk):
         "times on the 1/64 s grid, so every float subtraction/comparison in Budget is exact",
     ]
     theorems_ok = chk.check_theorems()
+    tie = None
+    if theorems_ok:
+        import source_tie
+        tie = source_tie.budget_tie(chk)
+        chk.coverage["source_translation"] = {k: v for k, v in tie.items() if k != "ir"}
+        if tie["ok"]:
+            chk.coverage["obligations"] += len(tie["theorems"])
+            chk.coverage["discharged"] += len(tie["theorems"])
+            chk.coverage["theorems"] = list(chk.coverage.get("theorems", [])) + [f"BudgetIR.{t}" for t in tie["theorems"]]
+        else:
+            chk.coverage["obligations"] += len(source_tie.THEOREMS)
 
     cases = load_corpus()
     n_rand = 1500 if chk.tier == "quick" else 12000
     cases += [gen_case(chk.rng, big=(i % 5 == 0)) for i in range(n_rand)]
+    hv = harvested_cases(chk.rng)
+    cases += hv
     exhaustive = None
     if chk.tier == "thorough":
         ex = list(exhaustive_cases(4))
@@ -184,6 +217,7 @@ def run(chk):
         "(capacity returned); distinct by (max, window, history)",
         samples=[{"case": cases[i], "observed": obs[i]} for i in (0, len(cases) // 2, len(cases) - 1)],
         exhaustive_small_scope=exhaustive,
+        harvested_constant_cases=len(hv),
         distribution={
             "refusals": sum(o.count("R") for o in obs),
             "grants": sum(o.count("G") for o in obs),
@@ -218,6 +252,13 @@ def run(chk):
              "disagreements": len(failing)},
             no_input=True,
         )
+
+    if tie is not None and not tie["ok"] and not chk.violations:
+        # the translated source no longer proves equal to the model and no failing history was found above
+        chk.violation({"kind": "source-translation", "what": tie["detail"], "stage": tie["stage"],
+                       "theorem": tie.get("theorem", "pyir_translate (fail-closed translator)"), "ir": tie.get("ir"),
+                       "searched": f"{len(cases)} Budget histories, the policy-level scripts and thread schedules: no property "
+                       "violation found"}, no_input=True)
 
 
 def policy_level(chk, theorems_ok):
